@@ -124,6 +124,30 @@ def gen(rng: random.Random, index: int) -> dict:
         spec["respond_to_read"] = True
         spec["events"] = [e for e in events if e["op"] != "foreign"]
         spec["tail"] = spec["tail"] + 10
+    elif cooldown > 0 and rng.random() < 0.45:
+        # connection flaps through the real ConnectionManager while a cooldown runs (instants off the 2^-6 grid)
+        sets = [e["t"] for e in events if e["op"] == "set"] or [0.0]
+        flaps = []
+        for _ in range(rng.randint(1, 3)):
+            a = rng.choice(sets) + rng.choice((G / 2, cd / 4 + G / 2, cd / 2 + G / 2, cd - G / 2))
+            b = a + rng.choice((G, cd / 4, cd / 2, cd, 2 * cd))
+            flaps.append([a, b])
+        flaps.sort()
+        merged = []
+        for a, b in flaps:  # disjoint intervals
+            if merged and a <= merged[-1][1] + G:
+                merged[-1][1] = max(merged[-1][1], b)
+            else:
+                merged.append([a, b])
+        spec["flaps"] = merged
+        conn = []
+        for a, b in merged:
+            conn.append({"t": a, "op": "conn", "state": "DISCONNECTED"})
+            if rng.random() < 0.4:
+                conn.append({"t": (a + b) / 2 if b - a > G else a, "op": "conn", "state": "CONNECTING"})
+            conn.append({"t": b, "op": "conn", "state": "CONNECTED"})
+        spec["events"] = sorted(events + conn, key=lambda e: e["t"])
+        spec["tail"] = spec["tail"] + 2 * cd
     return spec
 
 
@@ -225,7 +249,13 @@ def run_case(ctx, spec: dict) -> str | None:
                         ctx.count("set_same_payload_no_skip")
                     latest = payload
                     last_update_index = i
-                    pending_deadlines.append((t + cooldown, i))
+                    d = t + cooldown
+                    for a, b in spec.get("flaps", ()):
+                        # after a connection loss the statement only promises: CONNECTED again and one cooldown has passed
+                        if a <= d and b >= t:
+                            d = max(d, b + cooldown)
+                            ctx.count("deadline_extended_by_connection_flap")
+                    pending_deadlines.append((d, i))
                     pending_deadlines.sort()
                 await h.settle()
                 absorb_wire()
@@ -246,13 +276,26 @@ def run_case(ctx, spec: dict) -> str | None:
                 await h.settle()
                 absorb_wire()
                 bus = payload_repr(dev.sensor_value.to_knx(e["value"]))
+            elif op == "conn":
+                from xknx.core import XknxConnectionState
+                from xknx.core.connection_state import XknxConnectionType
+
+                state = XknxConnectionState[e["state"]]
+                if state is not XknxConnectionState.CONNECTED and dev._cooldown_task is not None and not dev._cooldown_task.done():
+                    ctx.count("connection_lost_while_cooldown_runs")
+                h.xknx.connection_manager.connection_state_changed(
+                    state, XknxConnectionType.TUNNEL_TCP if state is XknxConnectionState.CONNECTED else XknxConnectionType.NOT_CONNECTED)
+                await h.settle()
+                absorb_wire()
             elif op == "read":
                 h.incoming_read(GA)
                 await h.settle()
                 new = absorb_wire()
                 answers = [s for s in new if s.dst == ga and s.kind == "response" and s.seq >= before]
                 ctx.ev()
-                if not spec["respond_to_read"]:
+                if spec.get("flaps"):
+                    ctx.count("read_recorded_only_connection_flaps")
+                elif not spec["respond_to_read"]:
                     ctx.count("read_not_judged_respond_to_read_false")
                 elif latest is None:
                     ctx.count("read_not_judged_no_value_yet")
@@ -418,7 +461,8 @@ def run(ctx):
     )
     ctx.require("deadline_probes", "reads_judged", "spacing_checks", "spacing_at_the_limit", "writes_periodic", "writes_update_caused",
                 "set_skippable_same_payload", "set_skip_flag_but_payload_differs", "op_init", "final_probes", "slow_reads_judged",
-                "slow_reads_while_a_telegram_is_queued_or_in_flight", "slow_final_probes")
+                "slow_reads_while_a_telegram_is_queued_or_in_flight", "slow_final_probes", "connection_lost_while_cooldown_runs",
+                "deadline_extended_by_connection_flap")
     n = ctx.scale(600, 6000 * 16)
     for i in range(n):
         if not ctx.mine(i):
